@@ -85,10 +85,22 @@ def oracle(case, rec, group):
         if isinstance(v, twin.Fx): return abs(v.rep) >= P
         if isinstance(v, (list, tuple)): return any(beyond(x) for x in v)
         return isinstance(v, int) and abs(v) >= P
+    impl_reg = {}
+    for pc_, iv_ in rec["vals"]:
+        st_ = case["prog"][pc_ - 1] if 0 < pc_ <= len(case["prog"]) else None
+        if st_ is not None and st_[0] not in ("guarded", "ignore"): impl_reg[st_[1]] = iv_
+    def operand_regs(s):
+        if s and s[0] == "bin": return [s[3], s[4]]
+        if s and s[0] == "un": return [s[3]]
+        if s and s[0] == "meth": return [s[4]] + list(s[5])
+        return []
     for pc, iv in rec["vals"]:
         s = case["prog"][pc - 1] if 0 < pc <= len(case["prog"]) else None
         ops = involved(s)
-        if any(beyond(o) for o in ops): break       # an operand at or beyond the field size: integers and field elements part ways from here on
+        if any(beyond(o) for o in ops): break
+        # the operands themselves must agree with the reference: a divergence that comes from an earlier non-fixed-point
+        # operation (e.g. ~x on an integer secret, a C05 finding) is not this operation's
+        if any(q in regv and q in impl_reg and same(regv[q], impl_reg[q], tw.R, P) is False for q in operand_regs(s)): break       # an operand at or beyond the field size: integers and field elements part ways from here on
         fxp_involved = any(isinstance(o, (twin.Fx, float)) for o in ops)
         if pc in t and fxp_involved:
             ok = same(t[pc], iv, tw.R, case["cfg"]["p"])
